@@ -10,6 +10,11 @@
 (*   re : 1 iff the real part of the argument is bitwise x                 *)
 (*   jc, ji : bicomplex second component: coordinates carrying +step_ji    *)
 (*   tok: 1 iff the call's extra args/kwds arrived unchanged               *)
+(*   alts: every consistent decomposition <<i, u, ji>> of the offset: it   *)
+(*        is not unique when a unit ratio coincides with the step ratio    *)
+(*        (2 h[i+1] = h[i] for step ratio 2); (i, u, ji) above is the      *)
+(*        first one.  What was not logged is chosen here: an event is      *)
+(*        read with the first decomposition that is admissible.            *)
 (* One trace = one call of a derivative object.  This module decides       *)
 (* whether each recorded evaluation is a term of the stencil the           *)
 (* specification (Rules.tla + the Hessian table below) assigns to the      *)
@@ -77,6 +82,13 @@ Admissible(cfg, e) ==
                      THEN e.jc = e.c /\ e.ji = e.i
                      ELSE Len(e.jc) = 0
 
+\* resolve the decomposition: the first alternative under which the event is admissible (the event as logged if none is)
+WithAlt(e, a) == [e EXCEPT !.i = e.alts[a][1], !.u = e.alts[a][2], !.ji = e.alts[a][3]]
+Resolve(cfg, e) ==
+  IF \E a \in 1..Len(e.alts) : Admissible(cfg, WithAlt(e, a))
+  THEN WithAlt(e, CHOOSE a \in 1..Len(e.alts) : Admissible(cfg, WithAlt(e, a)) /\ \A b \in 1..(a - 1) : ~Admissible(cfg, WithAlt(e, b)))
+  ELSE e
+
 Key(e) == <<e.c, e.u, e.i, e.jc>>
 NegKey(k) == <<k[1], [j \in 1..Len(k[2]) |-> NegUnit(k[2][j])], k[3], k[4]>>
 
@@ -84,7 +96,7 @@ TraceInit == t \in 1..Len(Traces) /\ l = 1 /\ bag = [k \in {} |-> 0] /\ xevals =
 
 Consume ==
   /\ l <= Len(Ev)
-  /\ LET e == Ev[l] IN
+  /\ LET e == Resolve(Cfg, Ev[l]) IN
        /\ Admissible(Cfg, e)
        /\ IF Len(e.c) = 0 /\ Len(e.jc) = 0
           THEN xevals' = xevals + 1 /\ bag' = bag
